@@ -33,6 +33,9 @@ pub struct Program {
     pub reclaim: bool,
     /// which database is snapshotted when the crash happens
     pub target: usize,
+    /// the target database has never been snapshotted before (its first snapshot is interrupted)
+    #[serde(default)]
+    pub fresh_target: bool,
     /// crash points to try: None = decided by the tier (sample / all)
     pub points: Option<Vec<(u64, bool)>>,
 }
@@ -76,6 +79,7 @@ fn gen(rng: &mut Rng) -> Program {
         mid,
         reclaim: rng.chance(1, 2),
         target: rng.below(ndbs as u64) as usize,
+        fresh_target: rng.chance(1, 5),
         points: None,
     }
 }
@@ -128,8 +132,17 @@ fn execute(prog: Program, crash: Option<(u64, bool)>) -> Outcome {
     for op in prog.pre.iter() {
         apply(&mut admin, &mut cur, op);
     }
-    // D0: every database completes a snapshot
-    let all = (0..ndbs).map(|i| DBN[i]).collect::<Vec<_>>().join("|");
+    // D0: every database completes a snapshot (except a fresh target: nothing of it is on disk)
+    let all = (0..ndbs)
+        .filter(|i| !(prog.fresh_target && *i == prog.target && ndbs > 1))
+        .map(|i| DBN[i])
+        .collect::<Vec<_>>()
+        .join("|");
+    let fresh = prog.fresh_target && ndbs > 1;
+    if cur.is_none() {
+        admin.exec(&format!("use-db {} tok{}", DBN[0], 0));
+        cur = Some(0);
+    }
     if prog.pre_reclaim {
         admin.exec(&format!("snapshot false {}", all));
         if !w.declutter_tick(0, 20_000) {
@@ -235,6 +248,7 @@ fn execute(prog: Program, crash: Option<(u64, bool)>) -> Outcome {
         let name = DBN[i];
         let got = match dump_db(&dbs2, name) {
             Some(g) => live_view(&g),
+            None if fresh && i == prog.target => continue, // never persisted before: no promise
             None => {
                 out.violations.push(Violation::new(
                     "lost-database",
@@ -252,6 +266,8 @@ fn execute(prog: Program, crash: Option<(u64, bool)>) -> Outcome {
                 continue;
             }
             let (a, b, g) = (d0[i].get(k), d1[i].get(k), got.get(k));
+            // a fresh target had nothing on disk: "before" is absent for every key
+            let a = if fresh && i == prog.target { None } else { a };
             let ok = g == a || g == b;
             if !ok {
                 let clause = match (a, b, g) {
@@ -269,7 +285,7 @@ fn execute(prog: Program, crash: Option<(u64, bool)>) -> Outcome {
             }
         }
         let m = db_meta(&dbs2, name);
-        if m != meta0[i] {
+        if m != meta0[i] && !(fresh && i == prog.target && m.is_none()) {
             out.violations.push(Violation::new(
                 "metadata-changed",
                 site.clone(),
